@@ -36,4 +36,10 @@ func init() {
 	c03.Assume = append(c03.Assume, "service-schema-as-introspected: the introspection answer is rendered from a descriptor in the shape the GraphQL specification prescribes (see C15)")
 	mk("C04", "The routing table names a real owner for every routable field", 4, []string{"routing table checked"}, nil, nil)
 	mk("C05", "Conflicting service schemas are rejected, independent of service order", 5, []string{"conflict rejected", "accepted in every order"}, []string{"C05-three-services-partial-overlap"}, []string{"C05-plain-types-sharing-only-id", "C05-three-services-partial-overlap"}, "C05-three-services-partial-overlap", "C05-plain-types-sharing-only-id")
+	c05 := properties["C05"]
+	c05.Kernels = append(c05.Kernels, Kernel{Name: "service-schema-as-introspected", Pkg: "introspection", Files: []string{"introspection/c15.go"}, Entry: "VerifIntrospect", Mode: "seq",
+		Quick: map[string]int{"shapes": 6}, Thorough: map[string]int{"shapes": 10},
+		Reach:     []string{"schema reconstructed"},
+		Functions: []string{"introspection.introspectRemoteSchema", "introspection.parseQueryerResponse", "introspection.parseType"}})
+	c05.Assume = append(c05.Assume, "service-schema-as-introspected: the merger compares what introspection delivers (deprecated declarations included: the responder of the harness lists them only when the query asks for them, as the specification says)")
 }
